@@ -37,7 +37,8 @@ sys.path.insert(0, os.path.dirname(os.path.abspath(__file__)))
 import verilog_gen as G      # noqa: E402
 import verilog_known as K    # noqa: E402
 
-MODULES = ["Spydr.Verilog.Model", "Spydr.Verilog.ModelElab", "Spydr.Verilog.ModelText", "Spydr.Verilog.Spec",
+MODULES = ["Spydr.Verilog.Model", "Spydr.Verilog.ModelElab", "Spydr.Verilog.ModelText", "Spydr.Verilog.ModelParse",
+           "Spydr.Verilog.Spec",
            "Spydr.Verilog.Lemmas", "Spydr.Verilog.LemmasEmit", "Spydr.Verilog.LemmasOrder", "Spydr.Verilog.LemmasElab",
            "Spydr.Verilog.Props.C06",
            "Spydr.Verilog.Props.C04"]
@@ -432,8 +433,12 @@ def design_ast(design):
             if it["t"] == "assign":
                 items.append({"t": "assign", "l": it["l"], "r": it["r"]})
             else:
-                items.append({"t": "inst", "mod": it["mod"], "n": it["name"], "params": it["params"], "attrs": it["attrs"],
-                              "named": it["map"] == "named", "conns": it["conns"]})
+                dp = bool(it.get("defparam")) and bool(it["params"])
+                items.append({"t": "inst", "mod": it["mod"], "n": it["name"], "params": [] if dp else it["params"],
+                              "attrs": it["attrs"], "named": it["map"] == "named" and bool(it["conns"]), "conns": it["conns"]})
+                if dp:
+                    for k, v in it["params"]:
+                        items.append({"t": "defparam", "inst": it["name"], "key": k, "value": v})
         out.append({"name": m["name"], "prim": m["kind"] == "prim", "attrs": m["attrs"], "params": m["params"],
                     "header": header, "items": items})
     return out
